@@ -285,7 +285,7 @@ pub fn execute(plan: &Plan, ctx: &mut Ctx) {
                 }
                 "ENCE" => {
                     if let Dev::Enc(_, h) = &*devs[a0] {
-                        *h.cur.borrow_mut() = Err(Error::Other(op.arg(1) as u8));
+                        *h.cur.borrow_mut() = Err(err_of(op.arg(1) as u8));
                     }
                     None
                 }
@@ -898,7 +898,7 @@ fn check_update(
                     if log != want {
                         viol2(ctx, &["C20"], "actuator_handover", comp, format!("op {}: inner settable saw {:?}, expected {:?}", i, log, want));
                     }
-                    let wr = uerr.map(Er::Other);
+                    let wr = uerr.map(er_of);
                     if ret != Some(wr) {
                         viol2(ctx, &["C20"], "actuator_error_propagation", comp, format!("op {}: update returned {:?}, expected {:?}", i, ret, wr));
                     }
@@ -908,7 +908,7 @@ fn check_update(
                     if log.iter().any(|ev| matches!(ev, MotorEv::SetTd(_))) {
                         viol2(ctx, &["C20"], "harness_motor", comp, format!("op {}: rejected set was logged", i));
                     }
-                    if ret != Some(Some(Er::Other(e))) {
+                    if ret != Some(Some(er_of(e))) {
                         viol2(ctx, &["C20"], "actuator_error_propagation", comp, format!("op {}: inner set was rejected with E{} but update returned {:?}", i, e, ret));
                     }
                 }
@@ -917,7 +917,7 @@ fn check_update(
                     if log != vec![MotorEv::Update] {
                         viol2(ctx, &["C20"], "actuator_handover", comp, format!("op {}: terminal sees nothing but inner settable saw {:?}", i, log));
                     }
-                    let wr = uerr.map(Er::Other);
+                    let wr = uerr.map(er_of);
                     if ret != Some(wr) {
                         viol2(ctx, &["C20"], "actuator_error_propagation", comp, format!("op {}: update returned {:?}, expected {:?}", i, ret, wr));
                     }
@@ -944,7 +944,7 @@ fn check_update(
             let (want_slot, want_ret) = match (h.update_err.get(), cur) {
                 (Some(e), _) => {
                     ctx.count("fault.inner_update_err");
-                    (pre[k].own_s, Some(Er::Other(e)))
+                    (pre[k].own_s, Some(er_of(e)))
                 }
                 (None, Out::Err(e)) => {
                     ctx.count("fault.inner_get_err");
@@ -988,9 +988,9 @@ fn check_update(
             let rej = h.reject.get();
             let uerr = h.update_err.get();
             let (want_log, want_ret): (Vec<MotorEv>, Option<Er>) = match (uerr, tout, rej) {
-                (Some(e), _, _) => (vec![MotorEv::Update], Some(Er::Other(e))),
+                (Some(e), _, _) => (vec![MotorEv::Update], Some(er_of(e))),
                 (None, Out::Some(_, Val::F(b)), None) => (vec![MotorEv::Update, MotorEv::SetF(b)], None),
-                (None, Out::Some(..), Some(e)) => (vec![MotorEv::Update], Some(Er::Other(e))),
+                (None, Out::Some(..), Some(e)) => (vec![MotorEv::Update], Some(er_of(e))),
                 (None, _, _) => (vec![MotorEv::Update], None),
             };
             if matches!(tout, Out::Some(..)) {
